@@ -503,9 +503,22 @@ fn route_outcome(c: &RouteCase) -> Result<Option<Discrepancy>, String> {
                 if (c.sender as usize + c.batch.len()) % 8 == 0 {
                     OVERFLOW_CASES.fetch_add(1, std::sync::atomic::Ordering::Relaxed);
                     let pre: Vec<ReplicationDelta> = c.batch.iter().enumerate().map(|(i, k)| ReplicationDelta::new(format!("earlier:{}", k), ReplicatedValue::with_value(payload_for(c_batch_len, i), LamportClock { time: 1_000_000 + i as u64, replica_id: me }), me)).collect();
-                    st.queue_deltas(pre);
-                    for _ in 0..redis_sim::replication::gossip::MAX_OUTBOUND_QUEUE + 3 {
-                        st.queue_heartbeat();
+                    // two shapes: the earlier batch is among the dropped frames (queued first), or it survives the overflow in
+                    // the middle of the queue (queued when the queue was nearly full; a few more heartbeats then drop the oldest)
+                    let max = redis_sim::replication::gossip::MAX_OUTBOUND_QUEUE;
+                    if (c.sender as usize + c.batch.len()) % 16 == 0 {
+                        st.queue_deltas(pre);
+                        for _ in 0..max + 3 {
+                            st.queue_heartbeat();
+                        }
+                    } else {
+                        for _ in 0..max - 5 {
+                            st.queue_heartbeat();
+                        }
+                        st.queue_deltas(pre);
+                        for _ in 0..9 {
+                            st.queue_heartbeat();
+                        }
                     }
                 }
                 st.queue_deltas(deltas);
